@@ -35,6 +35,9 @@ STRENGTHENED = {
     'C04-6': 'missed at first (add_buffer sources were always fully committed); every other source buffer of C04 now holds one complete but uncommitted object behind its committed ones',
     'C09-6': 'missed at first (the compressor round trip never issued a zero-length write); half of the round trips now insert zero-length writes first, in between and last',
     'C13-5': 'missed at first (timestamps were parsed through Timestamp(const char*) only, which does not require full consumption); C13 now also judges OSMObject::set_timestamp(const char*), the strict entry point used by the XML reader: same grammar, whole string consumed, else invalid_argument',
+    'C02-6': 'missed at first (the text data sets had valid_locations_only: every node ref of a way was located); the OPL data sets of C02 now contain ways with partly located node refs and the xy form for undefined ones',
+    'C07-5': 'missed at first (every Reader asked for all entity types); a fifth of the valid-input scenarios of C07 now ask for osm_entity_bits::nothing (header only) - the fd and thread baselines do the rest',
+    'C20-5': 'missed at first (the function object given to DynamicHandler recorded into a global log, so a call on a copy looked the same); it now carries its own address and reports a call that reaches a copy',
     'C02-1': 'missed at first (string pairs near the 250-character table limit were deliberately kept out of the files); C02 now places pairs of exactly 249/250/251/252 characters followed by references',
 }
 
